@@ -72,11 +72,14 @@ func (r *Reader) readBlock() error {
 	}
 	switch m := methodEncoding(r.header[hMethod]); m {
 	case encodedLZ4: // == encodedLZ4HC, as decompression is similar for both
-		if dataSize == 0 && rawSize != 0 {
-			// Nothing to decompress into, lz4 panics on empty destination.
-			return errors.Errorf("unexpected %d bytes of compressed data for empty block", rawSize)
+		dst := r.data
+		if dataSize == 0 {
+			// The lz4 decoder can dereference empty destination (nil pointer
+			// panic), so using scratch byte: valid empty block writes nothing
+			// to it and anything else is reported as size mismatch below.
+			dst = make([]byte, 1)
 		}
-		n, err := lz4.UncompressBlock(r.raw[headerSize:], r.data)
+		n, err := lz4.UncompressBlock(r.raw[headerSize:], dst)
 		if err != nil {
 			return errors.Wrap(err, "uncompress")
 		}
